@@ -64,9 +64,31 @@ fn draw(font: &skrifa::FontRef, gid: u32, coords: &[F2Dot14]) -> Option<(Vec<Vec
 }
 
 /// max distance between two closed point sequences of equal length, best over rotation and direction
+fn seg_dist(p: (f64, f64), a: (f64, f64), b: (f64, f64)) -> f64 {
+    let (dx, dy) = (b.0 - a.0, b.1 - a.1);
+    let l2 = dx * dx + dy * dy;
+    let t = if l2 == 0.0 { 0.0 } else { (((p.0 - a.0) * dx + (p.1 - a.1) * dy) / l2).clamp(0.0, 1.0) };
+    let (qx, qy) = (a.0 + t * dx, a.1 + t * dy);
+    // per-axis distance, like the vertex-wise comparison
+    (p.0 - qx).abs().max((p.1 - qy).abs())
+}
+
+/// Hausdorff distance between two closed polylines (vertices of one against the segments of the other, both ways):
+/// used when the renderer emitted a different number of points for the same shape (a closing point that coincides with
+/// the start is dropped at some locations and not at others).
+fn polyline_dist(a: &[(f64, f64)], b: &[(f64, f64)]) -> f64 {
+    let one = |x: &[(f64, f64)], y: &[(f64, f64)]| -> f64 {
+        x.iter().map(|p| (0..y.len()).map(|i| seg_dist(*p, y[i], y[(i + 1) % y.len()])).fold(f64::INFINITY, f64::min)).fold(0.0, f64::max)
+    };
+    one(a, b).max(one(b, a))
+}
+
 fn contour_dist(a: &[(f64, f64)], b: &[(f64, f64)]) -> f64 {
-    if a.len() != b.len() || a.is_empty() {
+    if a.is_empty() || b.is_empty() {
         return f64::INFINITY;
+    }
+    if a.len() != b.len() {
+        return if a.len().abs_diff(b.len()) <= 2 { polyline_dist(a, b) } else { f64::INFINITY };
     }
     let n = a.len();
     let mut best = f64::INFINITY;
@@ -87,32 +109,52 @@ fn contour_dist(a: &[(f64, f64)], b: &[(f64, f64)]) -> f64 {
     best
 }
 
+/// Bottleneck distance between two sets of contours: the smallest d such that the contours can be paired one to one
+/// with every pair within d (exact: threshold search over the pairwise distances + bipartite matching).
 fn shape_dist(a: &[Vec<(f64, f64)>], b: &[Vec<(f64, f64)>]) -> f64 {
     if a.len() != b.len() {
         return f64::INFINITY;
     }
-    let mut used = vec![false; b.len()];
-    let mut worst: f64 = 0.0;
-    for ca in a {
-        let mut best = (f64::INFINITY, None);
-        for (j, cb) in b.iter().enumerate() {
-            if used[j] {
-                continue;
-            }
-            let d = contour_dist(ca, cb);
-            if d < best.0 {
-                best = (d, Some(j));
+    let n = a.len();
+    if n == 0 {
+        return 0.0;
+    }
+    let dist: Vec<Vec<f64>> = a.iter().map(|ca| b.iter().map(|cb| contour_dist(ca, cb)).collect()).collect();
+    let mut cands: Vec<f64> = dist.iter().flatten().copied().filter(|d| d.is_finite()).collect();
+    cands.sort_by(|x, y| x.total_cmp(y));
+    cands.dedup();
+    fn try_match(i: usize, lim: f64, dist: &[Vec<f64>], seen: &mut [bool], owner: &mut [Option<usize>]) -> bool {
+        for j in 0..dist.len() {
+            if dist[i][j] <= lim && !seen[j] {
+                seen[j] = true;
+                if owner[j].is_none() || try_match(owner[j].unwrap(), lim, dist, seen, owner) {
+                    owner[j] = Some(i);
+                    return true;
+                }
             }
         }
-        match best.1 {
-            Some(j) => {
-                used[j] = true;
-                worst = worst.max(best.0);
-            }
-            None => return f64::INFINITY,
+        false
+    }
+    let perfect = |lim: f64| -> bool {
+        let mut owner = vec![None; n];
+        (0..n).all(|i| {
+            let mut seen = vec![false; n];
+            try_match(i, lim, &dist, &mut seen, &mut owner)
+        })
+    };
+    let (mut lo, mut hi) = (0usize, cands.len());
+    if cands.is_empty() || !perfect(cands[cands.len() - 1]) {
+        return f64::INFINITY;
+    }
+    while lo < hi {
+        let mid = (lo + hi) / 2;
+        if perfect(cands[mid]) {
+            hi = mid;
+        } else {
+            lo = mid + 1;
         }
     }
-    worst
+    cands[lo]
 }
 
 /// (nesting depth, amplification): rounding of a base glyph is magnified by the component's 2x2 on the way up
@@ -125,10 +167,54 @@ fn depth_of(name: &str, man: &Value, default_master: &str, seen: usize) -> (usiz
     let mut best = (0usize, 1.0f64);
     for c in &comps {
         let (d, a) = depth_of(c["base"].as_str().unwrap_or(""), man, default_master, seen + 1);
-        let m = c["xform"].as_array().map(|x| x.iter().take(4).map(|v| v.as_f64().unwrap_or(0.0).abs()).fold(0.0, f64::max)).unwrap_or(1.0).max(1.0);
+        // worst-case magnification of a per-axis rounding error: the larger absolute row sum of the 2x2 (x' = a x + c y, y' = b x + d y)
+        let m = c["xform"].as_array().map(|x| {
+            let v: Vec<f64> = x.iter().take(4).map(|v| v.as_f64().unwrap_or(0.0).abs()).collect();
+            if v.len() == 4 { (v[0] + v[2]).max(v[1] + v[3]) } else { 1.0 }
+        }).unwrap_or(1.0).max(1.0);
         best = (best.0.max(d + 1), best.1.max(a * m));
     }
     best
+}
+
+fn layer_names(name: &str, man: &Value) -> Vec<String> {
+    man["glyphs"].as_array().and_then(|gs| gs.iter().find(|g| g["name"].as_str() == Some(name))).and_then(|g| g["layers"].as_object()).map(|l| l.keys().cloned().collect()).unwrap_or_default()
+}
+
+fn glyph_of<'a>(name: &str, man: &'a Value) -> Option<&'a Value> {
+    man["glyphs"].as_array().and_then(|gs| gs.iter().find(|g| g["name"].as_str() == Some(name)))
+}
+
+fn components_of(name: &str, man: &Value) -> Vec<String> {
+    glyph_of(name, man).and_then(|g| g["layers"].as_object())
+        .map(|l| l.values().flat_map(|layer| layer["components"].as_array().cloned().unwrap_or_default()).filter_map(|c| c["base"].as_str().map(|s| s.to_string())).collect()).unwrap_or_default()
+}
+
+/// Every *exported* glyph in the component closure has exactly the masters `own`: only then do the composite (each
+/// component interpolated by its own model) and the decomposed outline (interpolated by the glyph's model) agree between
+/// masters.  Non-exported components are inlined at the parent's masters by every build alike, so they do not matter.
+fn closure_same_masters(name: &str, man: &Value, own: &[String], depth: usize) -> bool {
+    let exported = glyph_of(name, man).map(|g| g["export"].as_bool().unwrap_or(true)).unwrap_or(true);
+    if exported {
+        let mut mine = layer_names(name, man);
+        let mut want = own.to_vec();
+        mine.sort();
+        want.sort();
+        if mine != want {
+            return false;
+        }
+    }
+    depth <= 8 && components_of(name, man).iter().all(|c| closure_same_masters(c, man, own, depth + 1))
+}
+
+/// Every exported glyph in the closure has a layer at master `m` (else the composite takes that component from its own
+/// interpolation, the decomposed outline from the compiler's - the property only fixes the latter for non-exported ones).
+fn closure_has_master(name: &str, man: &Value, m: &str, depth: usize) -> bool {
+    let exported = glyph_of(name, man).map(|g| g["export"].as_bool().unwrap_or(true)).unwrap_or(true);
+    if exported && !layer_names(name, man).iter().any(|l| l == m) {
+        return false;
+    }
+    depth <= 8 && components_of(name, man).iter().all(|c| closure_has_master(c, man, m, depth + 1))
 }
 
 /// args: manifest, reference font, then (label, font) pairs.  `extra_locs`: normalized locations besides the masters.
@@ -152,20 +238,37 @@ pub fn check(man: &Value, reference: &[u8], others: &[(String, Vec<u8>)], extra_
         };
         for (gid, name) in order.iter().enumerate().skip(1) {
             let (depth, amp) = depth_of(name, man, &default_master, 0);
+            // The property speaks of the glyph's master locations.  A global master at which the glyph itself has no layer is,
+            // for this glyph, an in-between location; and when some glyph in its component closure has a different master set
+            // (a sparse layer of a component, a component missing one of the glyph's masters), the composite interpolates each
+            // component by its own model while the decomposed outline only has the glyph's masters: in-between locations are
+            // then not comparable at all.
+            let own = layer_names(name, man);
+            let comparable_between = closure_same_masters(name, man, &own, 0);
             for (li, l) in locs.iter().enumerate() {
+                let at_own_master = li < masters.len().max(1) && (axes.is_empty() || masters.get(li).and_then(|m| m["name"].as_str()).map(|m| closure_has_master(name, man, m, 0)).unwrap_or(false));
+                if !at_own_master && !comparable_between {
+                    continue;
+                }
                 // the property's bound (1 unit per nesting level) is stated for master locations; in between, every build
                 // additionally carries its own delta rounding (scaled by the component transform), so only gross changes are judged
                 // a scaled component magnifies the base glyph's own rounding: (amp - 1) extra units of slack per level, twice
                 // (base rounding and delta rounding)
-                let per_level = 1.05 + 2.0 * (amp - 1.0);
-                let tol = if li < masters.len().max(1) { per_level * depth.max(1) as f64 + 0.01 } else { (per_level + 1.45) * depth.max(1) as f64 + 1.0 };
+                // At a master the composite's base outline comes from glyf+gvar: rounded master (0.5) plus the IUP tolerance (0.5),
+                // magnified by the component's 2x2, plus the rounded offset (0.5); the decomposed outline carries its own final
+                // rounding and IUP tolerance (1.0).  Worst case per level: amp + 1.5.
+                let per_level = amp + 1.5;
+                let tol = if at_own_master { per_level * depth.max(1) as f64 + 0.01 } else { (per_level + 1.45) * depth.max(1) as f64 + 1.0 };
                 let coords: Vec<F2Dot14> = l.iter().map(|v| F2Dot14::from_f32(*v as f32)).collect();
                 let (Some((ra, radv)), Some((oa, oadv))) = (draw(&rf, gid as u32, &coords), draw(&of, gid as u32, &coords)) else {
                     violations.push(json!({"what": format!("{label}: glyph '{name}' cannot be drawn at {l:?}")}));
                     continue;
                 };
                 compared += 1;
-                if (radv - oadv).abs() > 1e-3 {
+                // (in between, a composite flagged USE_MY_METRICS takes its advance from a component whose own rounding may differ by a unit)
+                // at a master each build is allowed to be 1 unit off the source advance (property C04: per-region delta rounding),
+                // so two builds may legitimately be 1 apart there - e.g. 598 vs 598.5 rounded up
+                if (radv - oadv).abs() > if at_own_master { 1.0 + 1e-3 } else { 2.0 } {
                     violations.push(json!({"what": format!("{label}: glyph '{name}' at {l:?}: advance {oadv} vs {radv} with all components decomposed"), "glyph": name, "opts": label}));
                 }
                 let d = shape_dist(&ra, &oa);
